@@ -33,8 +33,7 @@ func vpH_C26_suite() {
 		seen := map[key]bool{}
 		for i := 0; i < nc; i++ {
 			k := key{classes[vpChoice("class", 2)], names[vpChoice("name", 2)]}
-			vpAssume(!seen[k]) // one result file does not list the same case twice
-			seen[k] = true
+			seen[k] = true // (a case may be listed twice in one result file: its executions are merged)
 			e, kind := vpExecution("outcome")
 			cs = append(cs, TestCase{ClassName: k.c, Name: k.n, Executions: []TestExecution{e}})
 			if _, ok := outcomes[k]; !ok {
